@@ -374,6 +374,24 @@ async fn drive(spec: Value) -> Value {
                 tokio::time::sleep(Duration::from_millis(step[1].as_u64().unwrap_or(10))).await;
                 json!("ok")
             }
+            "clock_after" => {
+                // the wall clock jumps to `plus` ms after the id timestamp of history frame `idx`
+                let idx = step[1].as_u64().unwrap_or(0) as usize;
+                let plus = step[2].as_u64().unwrap_or(0);
+                match hist.get(idx) {
+                    Some(f) => {
+                        let ts = (f.id.to_u128() >> 80) as u64;
+                        {
+                            // logged under the controller's lock: ordered against the sync-point arrivals
+                            let mut st = ctl.m.lock().unwrap();
+                            xs::verif::set_now_ms(ts + plus);
+                            st.log.push(json!({"actor": "main", "point": "clock", "frame": null, "topic": null}));
+                        }
+                        json!("ok")
+                    }
+                    None => json!("no-such-frame"),
+                }
+            }
             "join" => {
                 // wait until every writer thread started so far has made all its appends
                 let deadline = Instant::now() + Duration::from_millis(step[1].as_u64().unwrap_or(10000));
